@@ -15,7 +15,7 @@ struct Pat {
     chunk: u16,
 }
 
-const KINDS: [&str; 10] = [
+const KINDS: [&str; 11] = [
     "sorted-append",
     "front-insertion",
     "middle-insertion",
@@ -26,7 +26,16 @@ const KINDS: [&str; 10] = [
     "random-mix",
     "ordered-insert-by-split_by",
     "chunks-built-on-worker-threads-then-merged",
+    "nodes-built-on-worker-threads-interleaved",
 ];
+
+fn gcd(a: usize, b: usize) -> usize {
+    if b == 0 {
+        a
+    } else {
+        gcd(b, a % b)
+    }
+}
 
 fn bound(n: usize) -> f64 {
     5.0 * ((n + 1) as f64).log2() + 20.0
@@ -79,7 +88,7 @@ fn run_pat_inner(pat: &Pat) -> CaseResult {
     st.size = n as u64;
     let mut rng = SplitMix(pat.seed as u64 ^ 0xC16);
     let mut t: Treap<Lt> = Treap::new();
-    let kind = pat.kind % 10;
+    let kind = pat.kind % 11;
     st.label(KINDS[kind as usize]);
     // intermediate checkpoints at 10^k so that a degenerate tree is reported at a small size
     let mut next_cp = 100usize;
@@ -227,6 +236,54 @@ fn run_pat_inner(pat: &Pat) -> CaseResult {
                 cp(&t, len, true, &mut maxh)?;
             }
         }
+        10 => {
+            // T worker threads (one after another, or eight at a time) each create M one-element treaps; the main thread
+            // concatenates them in an order that depends on (worker, creation index) only: column by column, column by column
+            // in alternating worker direction, or column by column visiting the workers with a stride. The j-th nodes of many
+            // threads then sit side by side, so any relation between the priority streams of different threads shows.
+            let m = [8usize, 16, 29, 32, 40, 64][(pat.chunk as usize) % 6].min(n.max(1));
+            let workers = (n / m).max(1);
+            let order = (pat.chunk as usize / 6) % 3;
+            let stride = [1usize, 3, 7, 19, 101][(pat.chunk as usize / 18) % 5];
+            let batch = if (pat.chunk as usize / 90) % 2 == 0 { 1 } else { 8 };
+            let mut per_worker: Vec<Vec<Option<Treap<Lt>>>> = Vec::with_capacity(workers);
+            let mut w0 = 0usize;
+            while w0 < workers {
+                let hs: Vec<_> = (w0..(w0 + batch).min(workers))
+                    .map(|w| std::thread::spawn(move || (0..m).map(|j| Some(Treap::from_item(Lt::new((j * workers + w) as u32)))).collect::<Vec<_>>()))
+                    .collect();
+                for h in hs {
+                    per_worker.push(h.join().unwrap());
+                }
+                w0 += batch;
+            }
+            for j in 0..m {
+                for i in 0..workers {
+                    let w = match order {
+                        0 => i,
+                        1 => {
+                            if j % 2 == 0 {
+                                i
+                            } else {
+                                workers - 1 - i
+                            }
+                        }
+                        _ => {
+                            // visit the workers with a stride coprime to their number
+                            let mut q = stride;
+                            while gcd(q, workers) != 1 {
+                                q += 1;
+                            }
+                            (i * q) % workers
+                        }
+                    };
+                    let piece = per_worker[w][j].take().unwrap();
+                    t = Treap::merge(std::mem::replace(&mut t, Treap::new()), piece);
+                    len += 1;
+                }
+                cp(&t, len, false, &mut maxh)?;
+            }
+        }
         _ => {
             // ordered insertion through split_by, ascending keys (the order that degenerates a plain BST)
             for i in 0..n {
@@ -257,7 +314,7 @@ fn real_main() {
     ctx.rule(
         "A case is an adversarial construction pattern (sorted appends, repeated front insertion, middle insertion, alternating ends, \
          split-and-swap rotations, remove/re-insert churn, concatenation of small treaps, random mix, ascending ordered insertion via \
-         split_by, chunks built on 2..n worker threads and merged) with generated size, seed offset of the library's priority stream and chunk parameter, priorities drawn by the \
+         split_by, chunks built on 2..n worker threads and merged, single nodes built on thousands of worker threads and merged column by column / in alternating direction / with a worker stride) with generated size, seed offset of the library's priority stream and chunk parameter, priorities drawn by the \
          library. Oracle at 10^k checkpoints and at the end, from an iterative read-only walk over the public node fields: priorities heap-ordered on every edge in one direction for the whole tree (ties allowed), height <= \
          5*log2(n+1)+20. The C03-style small histories with library priorities add heap checks after every operation. Non-trivial = a \
          pattern instance with n >= 1000 (sizes staged 10^2..10^5 quick, ..10^6 thorough). Distinct = distinct pattern parameters.",
@@ -282,8 +339,8 @@ fn real_main() {
     for (n, reps) in stages {
         let name = format!("patterns-n{}", n);
         let lo = n - n / 4;
-        let strat = (0u8..10, lo..=n, any::<u32>(), any::<u16>()).prop_map(|(kind, n, seed, chunk)| Pat { kind, n, seed, chunk });
-        ctx.prop_cfg(&name, "treap-pattern", reps * 10, 64, strat, run_pat);
+        let strat = (0u8..11, lo..=n, any::<u32>(), any::<u16>()).prop_map(|(kind, n, seed, chunk)| Pat { kind, n, seed, chunk });
+        ctx.prop_cfg(&name, "treap-pattern", reps * 11, 64, strat, run_pat);
         if ctx.violations() > 0 {
             break;
         }
@@ -293,6 +350,19 @@ fn real_main() {
         // distinct values only shows at this scale)
         let big = vec![Pat { kind: 0, n: 1_000_000, seed: 42, chunk: 0 }, Pat { kind: 1, n: 600_000, seed: 7, chunk: 0 }, Pat { kind: 8, n: 500_000, seed: 9, chunk: 0 }];
         ctx.exhaustive("patterns-n1e6-release", "treap-pattern", "sorted appends at 10^6, front insertion at 6*10^5, ordered split_by insertion at 5*10^5", false, big, run_pat);
+    }
+    if ctx.violations() == 0 {
+        // nodes created on thousands of threads and laid side by side: fixed instances (the sampled stages above reach this
+        // pattern at 10^5 only a few times) plus generated ones
+        let fixed = vec![
+            Pat { kind: 10, n: 4000 * 32, seed: 1, chunk: 3 },          // 4000 workers x 32, column by column
+            Pat { kind: 10, n: 3000 * 40, seed: 2, chunk: 4 + 6 },      // 3000 x 40, alternating direction
+            Pat { kind: 10, n: 2500 * 29, seed: 3, chunk: 2 + 12 + 18 }, // 2500 x 29, stride 3
+            Pat { kind: 10, n: 6000 * 16, seed: 4, chunk: 1 + 90 },     // 6000 x 16, eight workers at a time
+        ];
+        ctx.exhaustive("thread-built-nodes-interleaved", "treap-pattern", "1500..6000 worker threads x 16..40 nodes each, merged column by column / alternating / strided", false, fixed, run_pat);
+        let strat = (60_000u32..=160_000, any::<u32>(), any::<u16>()).prop_map(|(n, seed, chunk)| Pat { kind: 10, n, seed, chunk });
+        ctx.prop_cfg("thread-built-nodes-interleaved-generated", "treap-pattern", ctx.n(6, 120), 16, strat, run_pat);
     }
     if ctx.violations() == 0 {
         // small histories with library priorities: heap order after every operation
